@@ -124,6 +124,12 @@ def run_shard(spec, emit):
             if cs is None:
                 continue
             todo = [(cid, cs)]
+            if spec.get("tolsweep") and solver == "AndersonCD":
+                # an intercept that matters (non-centred features) and, every other repetition, a working set that is the
+                # whole problem: the run then leaves through the branch that ends the inner loop on the tolerance itself
+                cs.update(fit_intercept=True, xkind="shifted")
+                if rep % 2 == 0:
+                    cs["knobs"]["p0"] = int(cs["p"])
             if spec.get("tolsweep"):
                 todo = [("tolsweep/%s/t%d" % (cid, i), c2) for i, c2 in enumerate(K.tol_sweep(rng, cs, spec["tolsweep"]))]
             for cid_, cs_ in todo:
